@@ -220,7 +220,7 @@ def run(ctx):
                       {"kind": "labels", "items": repr(items), "x": repr(y), "op": "transform"})
                 idx = [rng.randrange(0, n + 2) for _ in range(rng.randrange(0, n + 2))]
                 ok2, r2 = call(enc.inverse_transform, idx)
-                C.add({"op": "label.inverse", "labels": lj, "y": idx}, [None if (isinstance(x, str) and x == "unknown" and "unknown" not in items) else code[repr(x)] for x in r2] if ok2 else {"err": type(r2).__name__},
+                C.add({"op": "label.inverse", "labels": lj, "y": idx}, [None if (isinstance(x, str) and x == "unknown" and "unknown" not in items) else code.get(repr(x), "not-a-label:" + repr(x)) for x in r2] if ok2 else {"err": type(r2).__name__},
                       {"kind": "labels", "items": repr(items), "x": repr(idx), "op": "inverse_transform"})
                 if ok1:
                     back = enc.inverse_transform(r)
